@@ -198,12 +198,17 @@ def _exhaustive_small():
         for (t1, t2) in itertools.product(grid, grid):
             for (v1, v2) in ((127, 0), (0, 127), (127, 127)):
                 out.append(_mk('sustain', _small([(60, a[0], a[1]), (60, b[0], b[1])], [(t1, v1), (t2, v2)])))
+    # three same-pitch notes (twins, zero-length notes, chains of removals) under a few pedal timelines
+    spans3 = [(s, e) for s in range(3) for e in range(3) if s <= e]
+    for abc in itertools.product(spans3, repeat=3):
+        for ped in ([(0, 127)], [(0, 127), (1, 0)], [(1, 127)], [(0, 127), (1, 0), (1, 127)]):
+            out.append(_mk('sustain', _small([(60, x[0], x[1]) for x in abc], ped)))
     return out
 
 
 def cases(rng, tier, n=None):
     thorough = tier == 'thorough'
-    total = 3000 if not thorough else 60000
+    total = 3000 if not thorough else 150000
     if n is not None:
         total = n
     out = []
